@@ -154,6 +154,7 @@ type Engine struct {
 	summaries map[string]Value           // function-name suffix -> replacement closure (per path)
 	sumCache  map[*ssa.Function]Value
 	inSummary bool
+	memo      map[string][]Value
 	unwindPrune bool
 	restarts  int
 	pendingCuts map[string]cutSpec
@@ -808,6 +809,7 @@ func (e *Engine) resetPath() {
 	e.tolerant = 0
 	e.hostState = map[string]any{}
 	e.unknownBranch = false
+	e.memo = map[string][]Value{}
 	e.unwindPrune = false
 	e.summaries = map[string]Value{}
 	e.sumCache = map[*ssa.Function]Value{}
